@@ -1,5 +1,5 @@
 """Per-property texts for MANIFEST.json (level, trusted base, technique)."""
-COMMON_NOTE = ('Structural clauses only (DESIGN 4 / 7). Trusted: CPython semantics of the constructs '
+COMMON_NOTE = ('Structural clauses only (DESIGN 4 / 7); every check also carries the generic obligation U1 (no read of a possibly-unbound local in the anchored functions). Trusted: CPython semantics of the constructs '
                'analysed, the standard library (asyncio, threading, fcntl) and the frozen raise-set table '
                'of DESIGN 2.2 printed in the evidence. Not decided: ')
 TECH = 'static analysis: ast CFG with exception/cancel edges + '
@@ -66,7 +66,7 @@ TEXT = {
          'note': COMMON_NOTE + 'window lengths in time.'},
  'C15': {'ref': '4.D C15', 'technique': 'static analysis: set comparison partial-keywords vs keyword-only parameters over sibling decorators, def-use chains, registry shape',
          'level': 'For the three option decorators the functools.partial returned for func=None must bind exactly the keyword-only options to the same-named parameters; '
-                  'each option is followed from the decorator through the constructor to its point of use; the per-loop registry is a WeakKeyDictionary keyed by get_running_loop() with atomic create-and-store, and a batcher is created only through the miss edge of the registry look-up.',
+                  'each option is followed from the decorator through the constructor to its point of use; the per-loop registry is a WeakKeyDictionary keyed by get_running_loop() with atomic create-and-store, a batcher is created only through the miss edge of the registry look-up, and the batcher a call is delegated to comes, on every path, from this activation\'s look-up or store (never from a variable written by an earlier call).',
          'note': COMMON_NOTE + '"behaves identically" as observable behaviour (follows only to the extent both forms then run the same code with the same bindings).'},
  'C03': {'ref': '4.C C03', 'technique': TECH + 'success-only-flag path rule, effect sets of the round set, value flow of dequeued producers through the gather idiom, thread-affinity classes',
          'level': 'The completion flag is settable only on the normal edge of the wrapped call; the round set is bound once and only grows; an Exception of the call is contained and leads back to the round loop; '
@@ -87,20 +87,20 @@ TEXT = {
  'C16': {'ref': '4.E C16', 'technique': TECH + 'sibling protocol rule (producer/consumer/sentinel), must-pass-through on producer exits, lexical scope of the executor',
          'level': 'Both bridges are checked as one protocol: the sentinel put lies on every exit of each producer and after all element puts; the consumer\'s loop test is an identity comparison with the module sentinel and yields every other value unconditionally; '
                   'the producer future is awaited / its result() taken after the loop; a synchronous iterator is advanced only in the function handed to run_in_executor; the hand-off uses call_soon_threadsafe(q.put_nowait) resp. queue.Queue; '
-                  'the ThreadPoolExecutor(1) with-block (or try/finally shutdown(wait=True)) encloses submit, loop and collection; an exception of the source escapes the producer; the consumer loop has no exit but the sentinel and dequeues without a timeout; a caller-supplied loop is never closed or stopped.',
+                  'the ThreadPoolExecutor(1) with-block (or try/finally shutdown(wait=True)) encloses submit, loop and collection; an exception of the source escapes the producer; the consumer loop has no exit but the sentinel and dequeues without a timeout; a caller-supplied loop is never closed or stopped; a hand-off queue fed with put_nowait is unbounded.',
          'note': COMMON_NOTE + 'loop responsiveness as measured time; early abandonment of the generator by the consumer (outside the statement).'},
  'C17': {'ref': '4.E C17', 'technique': 'static analysis: path enumeration with facts over the atoms same/running/closed (truth table), lexical lock regions, double-check path rule, provenance of loop and awaitable arguments',
          'level': 'Every path through ensure_aw - with the function handed to the executor expanded in place, whatever its form (closure, module helper with arguments, operator.methodcaller, @contextmanager helper) - is classified by what evaluates the awaitable and must carry the guard facts of the dispatch table; the per-loop lock is released on every exit; run_until_complete/run_forever sites are inside `with _get_loop_lock(<same loop>)`; '
-                  'the lock table is written only under the creation lock after a locked re-probe and keyed by id(loop); the awaitable reaches run_until_complete / run_coroutine_threadsafe with the target loop and every branch is `return await` without handlers; '
+                  'the lock table is written only under the creation lock through the miss edge of a locked re-probe, keyed by id(loop), and nothing but the finalizer registered at creation removes an entry; the awaitable reaches run_until_complete / run_coroutine_threadsafe with the target loop and every branch is `return await` without handlers; '
                   'loop_in_thread returns only through the true edge of is_running(); the stopper uses call_soon_threadsafe(loop.stop) then joins.',
          'note': COMMON_NOTE + 'the TOCTOU between the is_running() test and the loop stopping/starting; completion under pool exhaustion.'},
  'C18': {'ref': '4.E C18', 'technique': 'static analysis: affine-use (ownership) analysis of one-shot iterator values along both paths of split',
          'level': 'split is evaluated symbolically on both paths (callable / iterable condition): every iterator value (parameters, each tee output, map, compress) is consumed at most once; the callable is applied by exactly one map over a private tee copy of the source; '
-                  'the results are compress(a, c) and compress(b, map(not_, c\')) with a, b and c, c\' sibling outputs of one tee each, truthy side first; no eager consumer; exhaust drains via deque(maxlen=0) and returns nothing.',
+                  'the results are compress(a, c) and compress(b, map(not_, c\')) with a, b and c, c\' sibling outputs of one tee each, truthy side first; no eager consumer; split and its helpers never close / throw into an iterator and no bare next() can leak StopIteration out of a generator; exhaust drains via deque(maxlen=0) and returns nothing.',
          'note': COMMON_NOTE + 'nothing material; tee/compress/map semantics are trusted stdlib.'},
  'C19': {'ref': '4.E C19', 'technique': 'static analysis: syntactic rules on the nested helpers with path checks, forbidden-call scan with positive control, default-argument resolution',
          'level': 'the string item is cut once at the first separator (split(sep, 1), partition(sep), or find(sep) with slices [:i] / [i + len(sep):]); a missing separator reaches `raise ValueError` on every path; the default parser resolves to ast.literal_eval and the module contains no eval/exec/compile/import/pickle/getattr call or reference '
-                  '(positive control must match); parse(x) is control-dependent on isinstance(x, str) and every Exception edge of it reaches `return x`; the parse_keys switch selects (parsed, parsed) vs (raw, parsed); mappings go through .items() and every item through the pair parser into dict().',
+                  '(positive control must match); parse(x) is control-dependent on isinstance(x, str) and every Exception edge of it reaches `return x`, with x never re-bound on the way (the parser and the fallback see the caller\'s value); the parse_keys switch selects (parsed, parsed) vs (raw, parsed); mappings go through .items() and every item through the pair parser into dict().',
          'note': COMMON_NOTE + 'extensional equality with a reference model on all inputs; behaviour of ast.literal_eval itself.'},
  'C20': {'ref': '4.E C20', 'technique': 'static analysis: call-shape rule on asyncio.gather, iteration provenance, control dependence of the yield',
          'level': 'gather_excs passes *aws unfiltered to asyncio.gather with the literal return_exceptions=True, iterates the awaited result directly, yields res if and only if isinstance(res, only) (no further condition); raise_first_exc forwards (aws, only) and raises the first value.',
